@@ -50,11 +50,18 @@ def build_pool_isolated() -> dict:
 # ---------------------------------------------------------------------------------------------
 
 
-def count_steps(op, granularity: str) -> int:
-    """Number of pre-emption points the op passes when run alone under the simulator's tracer."""
-    s = sched.Scheduler(1, sched.ScriptPolicy([]), PKG_DIR, granularity, 10**9)
-    s.run(lambda tid: ops.execute(op), watchdog=60.0)
-    return s.steps
+STEP_COUNT_CAP = 200_000
+
+
+def count_steps(op, granularity: str, warm: bool = False) -> int:
+    """Number of pre-emption points the op passes when run alone under the simulator's tracer (counting stops at
+    STEP_COUNT_CAP: beyond it the exact number is of no use to any policy).  With `warm` the op is executed once
+    untraced first, so that one-time initialisation of a lazily initialising tree is not counted."""
+    if warm:
+        ops.execute(op)
+    s = sched.Scheduler(1, sched.ScriptPolicy([]), PKG_DIR, granularity, STEP_COUNT_CAP)
+    s.run(lambda tid: ops.execute(op), watchdog=120.0)
+    return min(s.steps, STEP_COUNT_CAP)
 
 
 def _solo_child(op):
@@ -75,12 +82,12 @@ def solo(op) -> dict:
 _STEPS: dict[str, int] = {}
 
 
-def steps(op, granularity: str) -> int:
+def steps(op, granularity: str, warm: bool = False) -> int:
     """Pre-emption points `op` passes alone (pristine fork), per granularity; cached."""
-    key = granularity + core.jdump(op)
+    key = granularity + ("W" if warm else "C") + core.jdump(op)
     got = _STEPS.get(key)
     if got is None:
-        got = isolate.fork_call(count_steps, (op, granularity), timeout=120)
+        got = isolate.fork_call(count_steps, (op, granularity, warm), timeout=180)
         _STEPS[key] = got
     return got
 
